@@ -449,7 +449,7 @@ Section Bodies.
     else if (t =? 4) || (t =? 5) then
       liftI r (match b2 with
                | [] => Err EEof
-               | nn :: _ => if nn =? 130 then Err EUnsupported else Err EBadDesc
+               | nn :: _ => if nn =? 130 then Err EUnsupported else Err EBadDesc   (* 0x82, since F10-1 (was 82) *)
                end)
     else if (t =? 55799) || do_skiptags D then
       self d r b2                    (* F14-2: DecodeNaked loops instead of recursing *)
